@@ -125,6 +125,32 @@ impl G {
 	fn script(&self, r: &mut Rng) -> ScriptBuf {
 		ScriptBuf::from(self.vecu8(r, 80))
 	}
+	fn chan_type(&self, r: &mut Rng) -> lightning::types::features::ChannelTypeFeatures {
+		use lightning::types::features::ChannelTypeFeatures as F;
+		match r.below(5) { 0 => F::only_static_remote_key(), 1 => F::anchors_zero_htlc_fee_and_dependencies(), 2 => F::from_be_bytes(vec![]), 3 => F::from_be_bytes(vec![0, 0, 0x10]), _ => { let n = r.below(9) as usize; F::from_be_bytes(r.bytes(n)) } }
+	}
+	fn node_id(&self, r: &mut Rng) -> lightning::routing::gossip::NodeId {
+		use lightning::routing::gossip::NodeId;
+		if r.chance(1, 3) { NodeId::from_slice(&r.bytes(33)).unwrap() } else { NodeId::from_pubkey(&self.pk(r)) }   // raw bytes: not validated as a point
+	}
+	fn chan_ann(&self, r: &mut Rng) -> msgs::UnsignedChannelAnnouncement {
+		let n = match r.below(4) { 0 => 0, 1 => 1, _ => r.below(12) as usize };
+		msgs::UnsignedChannelAnnouncement { features: lightning::types::features::ChannelFeatures::from_be_bytes(r.bytes(n)), chain_hash: bitcoin::constants::ChainHash::from(self.b32(r)), short_channel_id: self.u64b(r),
+			node_id_1: self.node_id(r), node_id_2: self.node_id(r), bitcoin_key_1: self.node_id(r), bitcoin_key_2: self.node_id(r), excess_data: if r.chance(1, 2) { vec![] } else { self.vecu8(r, 60) } }
+	}
+	fn chan_upd(&self, r: &mut Rng) -> msgs::UnsignedChannelUpdate {
+		msgs::UnsignedChannelUpdate { chain_hash: bitcoin::constants::ChainHash::from(self.b32(r)), short_channel_id: self.u64b(r), timestamp: self.u32b(r), message_flags: (r.next() as u8) | 1, channel_flags: r.next() as u8,
+			cltv_expiry_delta: self.u16b(r), htlc_minimum_msat: self.u64b(r), htlc_maximum_msat: self.u64b(r), fee_base_msat: self.u32b(r), fee_proportional_millionths: self.u32b(r),
+			excess_data: if r.chance(1, 2) { vec![] } else { self.vecu8(r, 60) } }
+	}
+	/// UTF-8 text with 1- to 4-byte characters (boundary code points included)
+	fn text(&self, r: &mut Rng) -> String {
+		let n = match r.below(5) { 0 => 0, 1 => 1, _ => r.below(40) as usize };
+		(0..n).map(|_| match r.below(8) { 0 => 'a', 1 => '\u{7f}', 2 => '\u{80}', 3 => '\u{7ff}', 4 => '\u{800}', 5 => '\u{ffff}', 6 => *r.pick(&['\u{10000}', '\u{10ffff}', '\u{d7ff}', '\u{e000}']), _ => char::from_u32(r.below(0x11_0000) as u32).unwrap_or('?') }).collect()
+	}
+	fn padlen(&self, r: &mut Rng) -> u16 {
+		match r.below(12) { 0 => 0, 1 => 1, 2 => 0xffff, 3 => 0xfffe, 4 => 0xfd, _ => r.below(300) as u16 }
+	}
 	fn attribution(&self, r: &mut Rng) -> AttributionData {
 		let b = r.bytes(920);
 		<AttributionData as Readable>::read(&mut &b[..]).expect("attribution data is 920 raw bytes")
@@ -151,15 +177,23 @@ const NAMES: &[&str] = &[
 	"ClosingSig", "CommitmentSigned", "FundingCreated", "FundingSigned", "ChannelReady", "Shutdown", "UpdateFailHTLC",
 	"UpdateFailMalformedHTLC", "UpdateFee", "UpdateFulfillHTLC", "PeerStorage", "PeerStorageRetrieval", "StartBatch",
 	"UpdateAddHTLC", "ReplyShortChannelIdsEnd", "QueryChannelRange", "GossipTimestampFilter",
+	// hand-written codecs with a hand-written schema (Model/MsgSchemasHand.lean; layout pinned to the source by
+	// Generated handPinned + Props hand_schemas_match_source)
+	"OpenChannel", "AcceptChannel", "OpenChannelV2", "AcceptChannelV2",
 ];
+/// hand-written codecs ending in `excess_data` (TailSchema: no TLV stream; compared at message level, not behind `wire::read`;
+/// the Unsigned… messages have no wire type of their own)
+const TAIL_NAMES: &[&str] = &["UnsignedChannelAnnouncement", "ChannelAnnouncement", "UnsignedChannelUpdate", "ChannelUpdate",
+	// irregular hand-written codecs with their own small model decoders (decodeErrorMsg / decodePing / decodePong)
+	"ErrorMessage", "WarningMessage", "Ping", "Pong"];
 /// number of TLV fields per message (for the presence mask)
 fn n_tlvs(name: &str) -> u32 {
 	match name {
 		"SpliceInit" | "SpliceAck" | "TxInitRbf" | "TxAckRbf" | "ClosingSigned" | "CommitmentSigned" | "ChannelReady"
 		| "UpdateFailHTLC" | "UpdateFulfillHTLC" | "StartBatch" => 1,
-		"ChannelReestablish" => 2,
+		"ChannelReestablish" | "OpenChannel" | "AcceptChannel" => 2,
 		"ClosingComplete" | "ClosingSig" => 3,
-		"UpdateAddHTLC" => 4,
+		"UpdateAddHTLC" | "OpenChannelV2" | "AcceptChannelV2" => 4,
 		_ => 0,
 	}
 }
@@ -246,6 +280,31 @@ fn build(name: &str, g: &G, r: &mut Rng, mask: u32, fails: &mut Vec<String>) -> 
 		"ReplyShortChannelIdsEnd" => fin!(msgs::ReplyShortChannelIdsEnd { chain_hash: bitcoin::constants::ChainHash::from(g.b32(r)), full_information: r.chance(1, 2) }, msgs::ReplyShortChannelIdsEnd),
 		"QueryChannelRange" => fin!(msgs::QueryChannelRange { chain_hash: bitcoin::constants::ChainHash::from(g.b32(r)), first_blocknum: g.u32b(r), number_of_blocks: g.u32b(r) }, msgs::QueryChannelRange),
 		"GossipTimestampFilter" => fin!(msgs::GossipTimestampFilter { chain_hash: bitcoin::constants::ChainHash::from(g.b32(r)), first_timestamp: g.u32b(r), timestamp_range: g.u32b(r) }, msgs::GossipTimestampFilter),
+		"OpenChannel" | "OpenChannelV2" => {
+			let (script, ct) = (g.script(r), g.chan_type(r));
+			let common_fields = msgs::CommonOpenChannelFields { chain_hash: bitcoin::constants::ChainHash::from(g.b32(r)), temporary_channel_id: g.cid(r), funding_satoshis: g.u64b(r), dust_limit_satoshis: g.u64b(r),
+				max_htlc_value_in_flight_msat: g.u64b(r), htlc_minimum_msat: g.u64b(r), commitment_feerate_sat_per_1000_weight: g.u32b(r), to_self_delay: g.u16b(r), max_accepted_htlcs: g.u16b(r), funding_pubkey: g.pk(r),
+				revocation_basepoint: g.pk(r), payment_basepoint: g.pk(r), delayed_payment_basepoint: g.pk(r), htlc_basepoint: g.pk(r), first_per_commitment_point: g.pk(r), channel_flags: r.next() as u8,
+				shutdown_scriptpubkey: opt(mask, 0, script), channel_type: opt(mask, 1, ct) };
+			if name == "OpenChannel" { fin!(msgs::OpenChannel { common_fields, push_msat: g.u64b(r), channel_reserve_satoshis: g.u64b(r) }, msgs::OpenChannel) }
+			else { fin!(msgs::OpenChannelV2 { common_fields, funding_feerate_sat_per_1000_weight: g.u32b(r), locktime: g.u32b(r), second_per_commitment_point: g.pk(r), require_confirmed_inputs: opt(mask, 2, ()), disable_channel_reserve: opt(mask, 3, ()) }, msgs::OpenChannelV2) }
+		},
+		"AcceptChannel" | "AcceptChannelV2" => {
+			let (script, ct) = (g.script(r), g.chan_type(r));
+			let common_fields = msgs::CommonAcceptChannelFields { temporary_channel_id: g.cid(r), dust_limit_satoshis: g.u64b(r), max_htlc_value_in_flight_msat: g.u64b(r), htlc_minimum_msat: g.u64b(r), minimum_depth: g.u32b(r),
+				to_self_delay: g.u16b(r), max_accepted_htlcs: g.u16b(r), funding_pubkey: g.pk(r), revocation_basepoint: g.pk(r), payment_basepoint: g.pk(r), delayed_payment_basepoint: g.pk(r), htlc_basepoint: g.pk(r),
+				first_per_commitment_point: g.pk(r), shutdown_scriptpubkey: opt(mask, 0, script), channel_type: opt(mask, 1, ct) };
+			if name == "AcceptChannel" { fin!(msgs::AcceptChannel { common_fields, channel_reserve_satoshis: g.u64b(r) }, msgs::AcceptChannel) }
+			else { fin!(msgs::AcceptChannelV2 { common_fields, funding_satoshis: g.u64b(r), second_per_commitment_point: g.pk(r), require_confirmed_inputs: opt(mask, 2, ()), disable_channel_reserve: opt(mask, 3, ()) }, msgs::AcceptChannelV2) }
+		},
+		"UnsignedChannelAnnouncement" => fin!(g.chan_ann(r), msgs::UnsignedChannelAnnouncement),
+		"ChannelAnnouncement" => fin!(msgs::ChannelAnnouncement { node_signature_1: g.sig(r), node_signature_2: g.sig(r), bitcoin_signature_1: g.sig(r), bitcoin_signature_2: g.sig(r), contents: g.chan_ann(r) }, msgs::ChannelAnnouncement),
+		"UnsignedChannelUpdate" => fin!(g.chan_upd(r), msgs::UnsignedChannelUpdate),
+		"ChannelUpdate" => fin!(msgs::ChannelUpdate { signature: g.sig(r), contents: g.chan_upd(r) }, msgs::ChannelUpdate),
+		"ErrorMessage" => fin!(msgs::ErrorMessage { channel_id: g.cid(r), data: g.text(r) }, msgs::ErrorMessage),
+		"WarningMessage" => fin!(msgs::WarningMessage { channel_id: g.cid(r), data: g.text(r) }, msgs::WarningMessage),
+		"Ping" => fin!(msgs::Ping { ponglen: g.u16b(r), byteslen: g.padlen(r) }, msgs::Ping),
+		"Pong" => fin!(msgs::Pong { byteslen: g.padlen(r) }, msgs::Pong),
 		_ => panic!("no builder for {}", name),
 	}
 }
@@ -277,7 +336,8 @@ fn dec(name: &str, bytes: &[u8], fails: &mut Vec<String>) -> String {
 		TxAbort, AnnouncementSignatures, ChannelReestablish, ClosingSigned, ClosingComplete, ClosingSig, CommitmentSigned,
 		FundingCreated, FundingSigned, ChannelReady, Shutdown, UpdateFailHTLC, UpdateFailMalformedHTLC, UpdateFee,
 		UpdateFulfillHTLC, PeerStorage, PeerStorageRetrieval, StartBatch, UpdateAddHTLC, ReplyShortChannelIdsEnd,
-		QueryChannelRange, GossipTimestampFilter)
+		QueryChannelRange, GossipTimestampFilter, OpenChannel, AcceptChannel, OpenChannelV2, AcceptChannelV2,
+		UnsignedChannelAnnouncement, ChannelAnnouncement, UnsignedChannelUpdate, ChannelUpdate, ErrorMessage, WarningMessage, Ping, Pong)
 }
 
 fn rb(r: &mut Rng, max: u64) -> Vec<u8> { let n = r.below(max) as usize; r.bytes(n) }
@@ -386,7 +446,7 @@ fn main() {
 	run.flush_fails();
 
 	for rep in 0..reps {
-		for name in NAMES {
+		for name in NAMES.iter().chain(TAIL_NAMES.iter()) {
 			// the long messages (1.4 kB onion, 920-byte attribution data, kB blobs) dominate the size of the
 			// op files: in the thorough tier they take part in every 8th round only
 			if args.thorough && rep % 8 != 0 && matches!(*name, "UpdateAddHTLC" | "PeerStorage" | "PeerStorageRetrieval" | "UpdateFailHTLC" | "UpdateFulfillHTLC") { continue; }
@@ -502,9 +562,9 @@ fn main() {
 		}
 	}
 	let _ = run.g;
-	run.rec.notes.insert("rule".into(), "every op line (message name + exact byte string) is a distinct case; valid stream = every TLV presence mask of each of the 32 covered macro-declared messages with fresh PRNG values; mutation stream = 16 mutation kinds + truncations on those encodings; wire ops through the verif_hooks::wire::read accessor; BigSize boundary values".into());
-	run.rec.notes.insert("covered_messages".into(), NAMES.join(","));
+	run.rec.notes.insert("rule".into(), "every op line (message name + exact byte string) is a distinct case; valid stream = every TLV presence mask of each of the 32 covered macro-declared messages and of the 12 hand-written codecs with a hand-written model (Open/AcceptChannel(V2), (Unsigned)ChannelAnnouncement, (Unsigned)ChannelUpdate, ErrorMessage, WarningMessage, Ping, Pong), with fresh PRNG values; mutation stream = 16 mutation kinds + truncations on those encodings; wire ops through the verif_hooks::wire::read accessor; BigSize boundary values".into());
+	run.rec.notes.insert("covered_messages".into(), format!("{},{}", NAMES.join(","), TAIL_NAMES.join(",")));
 	run.rec.notes.insert("wire_ids".into(), id_of.iter().map(|(k, v)| format!("{}={}", k, v.map(|x| x.to_string()).unwrap_or("not-dispatched".into()))).collect::<Vec<_>>().join(","));
-	run.rec.notes.insert("not_covered".into(), "macro-declared: TxSignatures (Vec<Witness>), RevokeAndACK (optional_vec of BlindedMessagePath); all hand-written impls (Init, Error, Warning, Ping, Pong, Open/AcceptChannel(V2), TxAddInput, OnionMessage, gossip announcements/updates, Query/ReplyShortChannelIds, ReplyChannelRange)".into());
+	run.rec.notes.insert("not_covered".into(), "macro-declared: TxSignatures (Vec<Witness>), RevokeAndACK (optional_vec of BlindedMessagePath); hand-written impls without a schema: Init (feature vectors are OR-ed and re-split on write), TxAddInput, OnionMessage, NodeAnnouncement (SocketAddress list), QueryShortChannelIds, ReplyChannelRange (encoding-type byte + sized scid vector)".into());
 	run.rec.finish();
 }
